@@ -16,9 +16,13 @@ fi
 git -C /repo apply "$PATCH"
 trap 'git -C /repo checkout -- . ' EXIT
 for ID in "$@"; do
+  # evidence written while a seeded change is applied must not replace the
+  # evidence of the unchanged tree
+  cp "/verif/evidence/$ID.json" "/tmp/evidence-$ID-$$.json" 2>/dev/null
   OUT=$(VERIF_WATCHDOG_S="${VERIF_WATCHDOG_S:-900}" /verif/check "$ID" "$TIER" 2>&1)
   CODE=$?
   LINE=$(echo "$OUT" | grep -m1 -A1 "^VIOLATION" | tr '\n' ' ' | cut -c1-300)
   [ -z "$LINE" ] && LINE=$(echo "$OUT" | grep -m1 -E "^(INCONCLUSIVE|RESULT)" | cut -c1-200)
+  [ -f "/tmp/evidence-$ID-$$.json" ] && mv "/tmp/evidence-$ID-$$.json" "/verif/evidence/$ID.json"
   echo "$(basename "$DIR") $ID exit=$CODE $LINE"
 done
